@@ -12,7 +12,7 @@
 //	        | (comp KIND STR T (fs (f STR T)*) (is (i P*)*))      KIND: struct resource event contract enum
 //	                                                               attachment sinterface rinterface cinterface;
 //	                                                               STR: type ID; T: enum raw type / attachment base type
-//	        | (rec STR)                                            repeated / recursive occurrence of a composite already printed in this type tree (by type ID)
+//	        | (rec STR)                                            recursive occurrence of an enclosing composite (by type ID)
 //	P     ::= (p STR STR T)                                       label identifier type
 //	AUTH  ::= unauth | (map STR) | (conj STR*) | (disj STR*)
 //	VALUE ::= nilv | (void) | (none) | (some V) | (bool true|false) | (str STR) | (char STR) | (addr HEX16)
@@ -55,10 +55,10 @@ func list(head string, items ...string) string {
 	return "(" + head + " " + strings.Join(items, " ") + ")"
 }
 
-// printer prints one type tree ("root").  A composite / interface type that was already printed
-// inside the same root (the same Go pointer: a repeated or recursive occurrence) is printed as
-// (rec ID) -- exactly the occurrences that json.PrepareType emits as a bare type ID string and that
-// the CCF type-value encoder emits as a type-value-ref.
+// printer prints one type tree ("root").  A composite / interface type that occurs inside its own
+// declaration (a recursive type: the same Go pointer is being printed) is printed as (rec ID); every
+// other occurrence is printed in full (the codecs' own tables of repeated types are modelled on the
+// Lean side, keyed by type ID).
 type printer struct {
 	seen map[cadence.Type]bool
 }
@@ -135,6 +135,7 @@ func (p *printer) comp(self cadence.Type, kind string, id string, extra cadence.
 		return list("rec", Str(id))
 	}
 	p.seen[self] = true
+	defer delete(p.seen, self)
 	fs := make([]string, len(fields))
 	for i, f := range fields {
 		fs[i] = list("f", Str(f.Identifier), p.typ(f.Type))
